@@ -1350,6 +1350,15 @@ def _next_states(body, arg):
                 nxt = "reset"
             elif len(e_) == 2 and e_[0] in ("self._rx_state",
                                             "self.rx_state"):
+                if not (isinstance(e_[1], ast.Attribute) and
+                        e_[1].attr.isupper()):
+                    # the next state looked up in a table / computed: not a
+                    # member written where the transition is made
+                    raise AnalysisError(
+                        "the receiver's next state is computed (`%s`), not "
+                        "a ReadState member named at the transition; the "
+                        "transition rules read named members"
+                        % unparse(e_[1], 60))
                 nxt = unparse(e_[1]).split(".")[-1]
         out.add(nxt)
     return out
